@@ -46,6 +46,7 @@ def parseKind (s : String) : Except String SKind :=
   | "integer" => pure .integer | "string" => pure .string | "list" => pure .list
   | "array" => pure .array | "multi" => pure .multi | "dict" => pure .dict
   | "sparse" => pure .sparse
+  | "schema" => pure .dict      -- a declarative `class F(Schema)` is a Dict
   | _ => throw s!"bad kind {s}"
 
 partial def parseSchema (j : Json) : Except String Schema := do
@@ -66,23 +67,35 @@ def parseSlice (j : Json) : Except String Slice := do
   | [a, b, c] => pure ⟨← optOf int a, ← optOf int b, ← optOf int c⟩
   | _ => throw "bad slice"
 
+/-- how a fresh Element argument is built: from a subclass of the needed class (`.named(…)` and/or
+    `.using(optional=…)`, with a class id of its own), with instance-level keyword overrides
+    (`cls(value, optional=…, name=…)`), owned by another container -/
+structure NewOpts where
+  sub : Option (Option Tree.Str × Option Bool × Nat) := none
+  instOpt : Option Bool := none
+  instName : Option Tree.Str := none
+  foreign : Bool := false
+
 /-- an argument as written in the case, before Element arguments are materialised -/
 inductive ArgSpec
   | plain (r : Raw)
-  | new (r : Option Raw) (rename : Option (Tree.Str × Nat)) (foreign : Bool)
+  | new (r : Option Raw) (o : NewOpts)
   | pool (k : Nat)
 
 def parseArg (j : Json) : Except String ArgSpec := do
   if let .ok v := fld j "v" then return .plain (← parseRaw v)
   if let .ok k := fld j "pool" then return .pool (← nat k)
   if let .ok v := fld j "new" then
-    let rn0 ← optOf chars (fldD j "rename" .null)
-    let rn ← match rn0 with
-      | none => pure none
-      | some nm => pure (some (nm, ← nfld j "cid"))
-    let foreign := (fldD j "foreign" (.bool false)) == .bool true
-    if (fldD j "blank" (.bool false)) == .bool true then return .new none rn foreign
-    return .new (some (← parseRaw v)) rn foreign
+    let rn ← optOf chars (fldD j "rename" .null)
+    let so ← optOf bool (fldD j "sub_optional" .null)
+    let sub ← if rn.isSome || so.isSome then pure (some (rn, so, ← nfld j "cid")) else pure none
+    let o : NewOpts := {
+      sub := sub,
+      instOpt := ← optOf bool (fldD j "inst_optional" .null),
+      instName := ← optOf chars (fldD j "inst_name" .null),
+      foreign := (fldD j "foreign" (.bool false)) == .bool true }
+    if (fldD j "blank" (.bool false)) == .bool true then return .new none o
+    return .new (some (← parseRaw v)) o
   throw s!"bad arg {j.compress}"
 
 def excName : Exc → String
@@ -149,27 +162,30 @@ def neededSchema (target : Node) (key : Option Tree.Str) : Option Schema :=
      | none => target.sch.subs.head?)
   | _ => none
 
-def renameSchema (s : Schema) (nm : Tree.Str) (newCid : Nat) : Schema :=
-  .mk { s.info with cid := newCid, isa := s.info.cid :: s.info.isa, name := some nm } s.dflt s.subs
+/-- `cls.named(nm)` / `cls.using(optional=o)`: a subclass with a class id of its own -/
+def subclassSchema (s : Schema) (nm : Option Tree.Str) (o : Option Bool) (newCid : Nat) : Schema :=
+  .mk { s.info with cid := newCid, isa := s.info.cid :: s.info.isa,
+                    name := (match nm with | some x => some x | none => s.info.name),
+                    optional := o.getD s.info.optional } s.dflt s.subs
 
 /-- materialise one argument; `Except.error` = the op is skipped with that reason -/
 def mkArg (s : St) (target : Node) (key : Option Tree.Str) (a : ArgSpec) : Except String (Arg × St) :=
   match a with
   | .plain r => .ok (.plain r, s)
-  | .new r rn foreign =>
+  | .new r o =>
     (match neededSchema target key with
      | none => .error "noschema"
      | some sch0 =>
-       let sch := match rn with | some (nm, cid) => renameSchema sch0 nm cid | none => sch0
+       let sch := match o.sub with | some (nm, so, cid) => subclassSchema sch0 nm so cid | none => sch0
        -- `foreign`: the element currently belongs to another container (an object outside the
        -- tree, with an id of its own): its stored parent pointer is that container
-       let par : Option Nat := if foreign then some s.next else none
-       let nx := if foreign then s.next + 1 else s.next
+       let par : Option Nat := if o.foreign then some s.next else none
+       let nx := if o.foreign then s.next + 1 else s.next
        match r with
-       | none => let b := blank sch par [] nx; .ok (.elem b.1, { s with next := b.2 })
+       | none => let b := blank sch par [] nx; .ok (.elem (b.1.withOverrides o.instOpt o.instName), { s with next := b.2 })
        | some raw =>
          match construct sch raw par [] nx with
-         | (.ok e, n1) => .ok (.elem e, { s with next := n1 })
+         | (.ok e, n1) => .ok (.elem (e.withOverrides o.instOpt o.instName), { s with next := n1 })
          | (.error .unsupported, _) => .error "UNSUPPORTED"
          | (.error e, _) => .error ("argerr:" ++ excName e))
   | .pool k =>
@@ -225,6 +241,8 @@ def parseSeqOp (j : Json) : Except String SeqSpec := do
   | "pop" => return .direct (.pop (← optOf int (fldD j "i" .null)))
   | "remove" => return .remove (← a)
   | "reverse" => return .direct .reverse
+  | "clear" => return .direct .clear
+  | "imul" => return .direct (.imul (← ifld j "n"))
   | "sort" =>
     let key ← optOf str (fldD j "key" .null)
     let k ← match key with
